@@ -189,18 +189,56 @@ class BatchInverse:
   props = ["C10", "C11", "C17"]
 
 
+BINV = f"{E}::EcCurve.BatchInverse"
+# the inverse-free x-coordinate of the chord law: x3 * (x1 - x2)^2 == (y1 - y2)^2 - (x1 + x2) * (x1 - x2)^2  (mod p)
+_CHORD_X = ("(x * (p[0] - points[i][0]) * (p[0] - points[i][0]) - (p[1] - points[i][1]) * (p[1] - points[i][1]) + "
+            "(p[0] + points[i][0]) * (p[0] - points[i][0]) * (p[0] - points[i][0])) % self.mod == 0")
+
+
 @contract(f"{E}::EcCurve.BatchAddX")
 class BatchAddX:
-  """Shape only: one x-coordinate per input point, whatever p is (the values are decided by bounded/c11.py
-  batch_add_variants)."""
+  """Ring pass (every modulus, every list): each x-coordinate computed by the shared-inversion branch satisfies the
+  textbook chord law for p and points[i] in its inverse-free form - the inverses come from BatchInverse's proved
+  contract (v * (x1 - x2) == 1 + mod * K), the slope is t = v * (y1 - y2).  The other entries are Add(p, q)[0] (Add's own
+  contract).  Value pass: one x-coordinate per input point (what callers assume)."""
   params = {"p": "point", "points": "list[point]"}
   self_fields = CURVE_FIELDS
   returns = "list[Optional[int]]"
-  requires = CURVE_REQ + ["wf_point(p)", "forall(k, 0, len(points), wf_point(points[k]))"]
+  congruence_mod = "self.mod"
+  # prime-field hypotheses of the value pass (stated, not proved - as for Add / Double): a difference of x-coordinates is
+  # 0 or a unit, 2y is 0 or a unit
+  requires = CURVE_REQ + ["wf_point(p)", "forall(k, 0, len(points), wf_point(points[k]))",
+                          ("VALUE", "forall(k, 0, len(points), p[0] is None or points[k][0] is None or "
+                                    "(p[0] - points[k][0]) % self.mod == 0 or gcd(p[0] - points[k][0], self.mod) == 1)"),
+                          ("VALUE", "p[0] is None or p[1] % self.mod == 0 or gcd(2 * p[1], self.mod) == 1")]
   raises = {"ArithmeticError": None}
   ensures = [("C10,C11,C17", "len(result) == len(points)")]
-  loops = {0: dict(invariant=["len(tmp) == len(points)"], types={"tmp": "list[Optional[int]]"}),
-           1: dict(invariant=["len(tmp) == len(points)"], types={"tmp": "list[Optional[int]]"})}
+  caller_ensures = ["len(result) == len(points)"]
+  entry_ghost = ["g_K = 0"]
+  on_call = {BINV: ["g_K = invert_k(ufi('pp', len(args[0])), self.mod)",
+                    "assert [C11] forall(k, 0, len(points), ret[k] is None or "
+                    "ret[k] * (p[0] - points[k][0]) == 1 + self.mod * g_K)"]}
+  on_assign = {"x": [
+      "begin_scope",
+      "let d = p[0] - points[i][0]", "let e = p[1] - points[i][1]", "let s = p[0] + points[i][0]",
+      "assert [C11] v * d == 1 + self.mod * g_K",
+      "assert [C11] by(t * d == e + self.mod * (e * g_K), t == v * e, v * d == 1 + self.mod * g_K)",
+      "assert [C11] by((t * d) * (t * d) == e * e + self.mod * (e * e * g_K * (2 + self.mod * g_K)), "
+      "t * d == e + self.mod * (e * g_K))",
+      "assert [C11] by(x * d * d - e * e + s * d * d == self.mod * (e * e * g_K * (2 + self.mod * g_K)), "
+      "x == t * t - p[0] - points[i][0], (t * d) * (t * d) == e * e + self.mod * (e * e * g_K * (2 + self.mod * g_K)), "
+      "s == p[0] + points[i][0])",
+      "euclid(x * d * d - e * e + s * d * d, self.mod, 0, e * e * g_K * (2 + self.mod * g_K))",
+      "assert [C11] " + _CHORD_X,
+      "end_scope"]}
+  loops = {0: dict(invariant=["len(tmp) == len(points)",
+                              ("C11", "forall(k, 0, i, implies(tmp[k] is not None, tmp[k] == p[0] - points[k][0]))"),
+                              ("C11", "forall(k, i, len(points), tmp[k] is None)")],
+                   types={"tmp": "list[Optional[int]]"}),
+           1: dict(invariant=["len(tmp) == len(points)",
+                              ("C11", "forall(k, i, len(points), tmp[k] is None or "
+                                      "tmp[k] * (p[0] - points[k][0]) == 1 + self.mod * g_K)")],
+                   types={"tmp": "list[Optional[int]]"}, keep={"g_K"})}
   var_types = {"tmp": "list[Optional[int]]"}
   props = ["C10", "C11", "C17"]
 
